@@ -17,6 +17,10 @@ template <class T> long val_of(const T& t) {
   return (v >= 0 && v < 100000) ? v : -1;
 }
 
+// config suffix w ("wide versions"): the sequence counter starts just below 2^33, i.e. the object behaves as after 2^32 - 2 completed writes - the
+// property holds for EVERY number of writes, and 2^32 of them cannot be run.  White box: the counter is the first word of the object.  The layout
+// is checked first (the word is 0 after construction and 2 after one store); if it is not what we expect nothing is preset.
+static bool g_wide = false;
 template <class T, unsigned S>
 xv::Scenario make_scn(const drv::Program& p) {
   using SL = xenium::seqlock<T, xenium::policy::slots<S>>;
@@ -28,7 +32,21 @@ xv::Scenario make_scn(const drv::Program& p) {
     else if (o.name == "load") { if (S == 1) xv::call_blocking("load"); else xv::call("load"); T r = (*s)->load(); xv::ret(0, val_of(r)); }
   };
   xv::Scenario sc; sc.nthreads = (int)p.threads.size();
-  sc.setup = [=] { s->reset(new SL(mk<T>(1))); xv::ev("cfg", "init", 1); for (auto& o : p.setup) exec(o); };
+  sc.setup = [=] {
+    s->reset(new SL(mk<T>(1))); xv::ev("cfg", "init", 1);
+    if (g_wide && S > 1) {
+      auto* w = reinterpret_cast<std::atomic<uintptr_t>*>(s->get());
+      bool ok = w->load(std::memory_order_relaxed) == 0;
+      if (ok) { (*s)->store(mk<T>(1)); ok = w->load(std::memory_order_relaxed) == 2; }
+      if (ok) {
+        // version 2n with the current value in slot n % S: choose n = 2^32 - 2 and put the value where it belongs with one more store
+        w->store(((uintptr_t)1 << 33) - 6, std::memory_order_relaxed);
+        (*s)->store(mk<T>(1));
+        xv::ev("cfg", "wide", 1);
+      } else xv::ev("cfg", "wide", 0);
+    }
+    for (auto& o : p.setup) exec(o);
+  };
   sc.body = [=](int t) { for (auto& o : p.threads[t]) exec(o); };
   sc.finish = [=] { xv::call("load"); T r = (*s)->load(); xv::ret(0, val_of(r)); xv::ev("quiescent", "end"); };
   return sc;
@@ -49,6 +67,7 @@ int main(int argc, char** argv) {
   return xv::explore_main(argc, argv, [](const std::string& ps) {
     drv::Program p = drv::parse(ps);
     int slots = 0, bytes = 0;
+    g_wide = !p.config.empty() && p.config.back() == 'w';
     if (sscanf(p.config.c_str(), "s%db%d", &slots, &bytes) != 2) { fprintf(stderr, "seqlock: bad config %s\n", p.config.c_str()); exit(2); }
     switch (bytes) {
       case 12: return by_slots<W4<3>>(p, slots);
